@@ -26,6 +26,7 @@ from ..engine import (
 )
 from ..ops import exec_read_op
 from ..edits import gen_edit, apply_edit
+from ..isolation import pristine_state
 from ..terms import World, KINDS, BuildError
 
 PID = "C08"
@@ -325,15 +326,16 @@ def fresh_outcome(term, op, edit_log, gran="line", count=False):
     """The same operation on freshly built objects, alone.  Objects are built
     first (Data wrappers included), then the caller-side edits made so far are
     applied to the fresh documents, then the operation runs."""
-    fresh = World(term)
-    for kind, idx in sorted(touches(term, op)):
-        fresh.get(kind, idx)
-    for di, e in edit_log:
-        if fresh.has("docs", di):
-            apply_edit(fresh.get("docs", di), e)
-    if count:
-        return count_steps(lambda: exec_read_op(fresh, op), gran, cap=300_000)
-    return exec_read_op(fresh, op), 0
+    with pristine_state():
+        fresh = World(term)
+        for kind, idx in sorted(touches(term, op)):
+            fresh.get(kind, idx)
+        for di, e in edit_log:
+            if fresh.has("docs", di):
+                apply_edit(fresh.get("docs", di), e)
+        if count:
+            return count_steps(lambda: exec_read_op(fresh, op), gran, cap=300_000)
+        return exec_read_op(fresh, op), 0
 
 
 def run(case):
